@@ -86,5 +86,5 @@ def guarded(fn):
         except Abandon:
             return []
         except Finding as e:
-            return [("no-ub", "fail", "%s: %s" % (e.kind, e), None)]
+            return [("no-ub", "fail", "%s: %s" % (e.kind, e), getattr(fn, "cx", None))]
     return runner
